@@ -81,6 +81,12 @@ class GotranCCodePrinter(C99CodePrinter):
         finally:
             self._real_literals = previous
 
+    def _print_Mod(self, expr):
+        # Mod is the floored modulo (result has the sign of the divisor),
+        # C's fmod truncates (result has the sign of the dividend)
+        num, den = (self._print(arg) for arg in expr.args)
+        return f"(({num}) - ({den})*floor(({num})/({den})))"
+
     def _print_Piecewise(self, expr):
         if isinstance(expr.args[0][0], Assignment):
             result = []
